@@ -521,6 +521,18 @@ def gen_case(rng, circuit_friendly=False):
             vs = vs[:4]                    # four terms
             lo5, hi5 = sum(doms[i][0] for i in vs), sum(doms[i][1] for i in vs)
         cons[0] = [kind5, vs, rng.randint((lo5 + hi5) // 2, hi5) if kind5 == "sum_ge" and rng.random() < 0.6 else rng.randint(lo5, hi5)]
+    if not circuit_friendly and not five and not anon and nv >= 3 and rng.random() < 0.08:
+        # sum_eq over three or four variables the last of which is fixed: the recursion ends on (partial sum, constant)
+        vs = rng.sample(range(nv), rng.randint(3, nv))
+        t = vs[-1]
+        vars_[t][2] = vars_[t][1]
+        doms[t] = [vars_[t][1], vars_[t][1]]
+        cons[0] = ["sum_eq", vs, rng.randint(sum(doms[i][0] for i in vs), sum(doms[i][1] for i in vs))]
+    if cons[0][0] in ("sum_eq", "sum_le", "sum_ge") and len(cons[0][1]) >= 3 and rng.random() < 0.35:
+        # a fixed (one-value) variable as the last, the first or a middle term of a longer sum
+        t = cons[0][1][rng.choice([-1, -1, 0, 1])]
+        vars_[t][2] = vars_[t][1]
+        doms[t] = [vars_[t][1], vars_[t][1]]
     if circuit_friendly:
         cons[0] = ["circuit", list(range(nv)) if rng.random() < 0.8 else rng.sample(range(nv), nv)]
     solves = [dict(s) for s in SOLVES]
